@@ -1198,10 +1198,15 @@ void
 br_ssl_engine_sendrec_ack(br_ssl_engine_context *cc, size_t len)
 {
 	sendrec_ack(cc, len);
-	if (len != 0 && !has_rec_tosend(cc)
-		&& (cc->record_type_out != BR_SSL_APPLICATION_DATA
-		|| (cc->application_data & 1) == 0))
-	{
+
+	/*
+	 * Once the record is out, the handshake processor must get a
+	 * chance to run, also in application data mode: it may be
+	 * waiting for room to send an alert (e.g. the warning that
+	 * declines a renegotiation request received while this record
+	 * was being sent). When it has nothing to do, it yields at once.
+	 */
+	if (len != 0 && !has_rec_tosend(cc)) {
 		jump_handshake(cc, 0);
 	}
 }
